@@ -84,7 +84,7 @@ def model_to_trace(behs, uris):
     """Converts behaviours printed by MC_PoolGen (model events + model observations) into the record
     schema of the harness, so that PoolObs.tla can be run over the model's own behaviours."""
     out = []
-    blank = {"e": "", "r": 0, "o": 0, "h2": False, "c": 0, "d": 0, "ok": False, "res": "", "kind": "", "stage": "", "woken": False, "first": False}
+    blank = {"e": "", "r": 0, "o": 0, "h2": False, "c": 0, "d": 0, "ok": False, "res": "", "kind": "", "stage": "", "woken": False, "first": False, "ages": []}
     for n, b in enumerate(behs):
         nor = len(uris)
         empty = {"req": [], "conn": [], "idle": [[] for _ in range(nor)], "wq": [[] for _ in range(nor)], "cing": [False] * nor, "ndial": 0, "ticks": 0}
@@ -137,6 +137,45 @@ def monitor(pid, trace_path):
     if len(v) != 1:
         raise vlib.ToolError("PoolObs printed no report")
     return v[0], r
+
+
+def trace_validate(pid, path, max_restarts=8):
+    """Validates a recorded real trace against Pool.tla itself (PoolTrace.tla).  Returns
+    (runs accepted, runs rejected, first rejections).  A rejection is DRIFT, never an alarm."""
+    trace = vlib.read_ndjson(path)
+    d = vlib.outdir(pid)
+    accepted, rejected, rej = 0, 0, []
+    rest = trace
+    for _ in range(max_restarts + 1):
+        if not rest:
+            break
+        part = os.path.join(d, "tv-part.ndjson")
+        vlib.write_ndjson(part, rest)
+        r = vlib.tlc_trace("PoolTrace.tla", "PoolTrace.cfg", pid, part, timeout=3000)
+        rj = r.printed("REJECT") if False else None
+        k = None
+        for line in r.out.splitlines():
+            if line.startswith('<<"REJECT", '):
+                k = int(line.split(",")[1])
+                break
+        if k is None:
+            if not r.finished:
+                vlib.log(r.out[-2000:])
+                raise vlib.ToolError("PoolTrace failed")
+            accepted += sum(1 for x in rest if x["e"] == "Reset")
+            rest = []
+            break
+        # records 1..k matched; record k+1 (0-based index k) did not
+        accepted += sum(1 for x in rest[:k] if x["e"] == "Reset") - 1
+        rejected += 1
+        bad = rest[k]
+        rej.append({"run": next((x.get("run") for x in reversed(rest[:k + 1]) if x["e"] == "Reset"), None),
+                    "unmatched": {kk: v for kk, v in bad.items() if kk != "obs"}})
+        nxt = next((i for i in range(k + 1, len(rest)) if rest[i]["e"] == "Reset"), None)
+        rest = rest[nxt:] if nxt is not None else []
+    else:
+        rejected += sum(1 for x in rest if x["e"] == "Reset")
+    return accepted, rejected, rej
 
 
 def behaviour_of(trace, base):
@@ -230,6 +269,14 @@ def run(pid, tier, seed, t0, asbuilt=None):
                               {"kind": "pool-trace", "clause": v["tag"], "at": v["l"] - v["base"], "records": recs})
         all_viol += mine
 
+    # ---- trace validation of the random walks against Pool.tla itself (impl -> spec; DRIFT only)
+    tv = None
+    if pid != "C06":
+        acc, rejd, rej = trace_validate(pid, wtrace)
+        tv = {"runs_accepted": acc, "runs_rejected": rejd, "first_rejections": rej[:3]}
+        if rejd:
+            vlib.log(f"DRIFT: {rejd} random-walk runs are not behaviours of Pool.tla: {rej[:2]}")
+
     # ---- cross-validation of the monitor on the model's own behaviours (never an alarm)
     mtrace = os.path.join(d, "model-trace.ndjson")
     vlib.write_ndjson(mtrace, model_to_trace(behs[: 400 if tier == "quick" else 4000], uri_desc(uris)))
@@ -254,7 +301,8 @@ def run(pid, tier, seed, t0, asbuilt=None):
         "actions_never_taken": never,
         "replay": {"behaviours": rep["behaviours"], "conformant": rep["conformant"], "drifted": rep["drifted"], "steps": rep["steps"],
                    "drift_kinds": rep["drift_kinds"], "drift_samples": rep["drift_samples"]},
-        "drift": rep["drifted"],
+        "drift": rep["drifted"] + (tv["runs_rejected"] if tv else 0),
+        "walk_trace_validation": tv,
         "walk": wk,
         "monitor_records": nrec,
         "monitor_on_model_behaviours": {"behaviours": min(len(behs), 400 if tier == "quick" else 4000), "clauses_flagged": model_flags},
